@@ -141,12 +141,13 @@ def coq_project():
     return False
 
 
-def coq_build():
-    """Full .vo build via coq_makefile/make. Returns (ok, log)."""
+def coq_build(targets=None):
+    """Full .vo build via coq_makefile/make (optionally only the given .vo targets and what
+    they depend on). Returns (ok, log)."""
     with Lock("coq"):
         if coq_project() or not os.path.exists(os.path.join(COQ, "Makefile")):
             sh("coq_makefile -f _CoqProject -o Makefile", cwd=COQ)
-        p = sh("timeout 3000 make -j16", cwd=COQ, check=False, timeout=3100)
+        p = sh("timeout 3000 make -j16 " + " ".join(targets or []), cwd=COQ, check=False, timeout=3100)
         return p.returncode == 0, (p.stdout + p.stderr).decode("utf8", "replace")
 
 
@@ -183,55 +184,79 @@ def _hash_files(files):
     return h.hexdigest()
 
 
-def gen_extract_v():
+def _area_roots(path):
     imports, roots = [], []
-    rd = os.path.join(EXTRACT_SRC, "roots")
-    for f in sorted(os.listdir(rd)):
-        for line in open(os.path.join(rd, f)):
-            line = line.split("#")[0].strip()
-            if not line:
-                continue
-            if line.startswith("import "):
-                if line[7:] not in imports:
-                    imports.append(line[7:])
-            elif line not in roots:
-                roots.append(line)
+    for line in open(path):
+        line = line.split("#")[0].strip()
+        if not line:
+            continue
+        if line.startswith("import "):
+            imports.append(line[7:])
+        else:
+            roots.append(line)
+    return imports, roots
+
+
+def gen_extract_v(areas):
+    imports, roots = [], []
+    for a in areas:
+        im, ro = _area_roots(os.path.join(EXTRACT_SRC, "roots", a + ".txt"))
+        for x in im:
+            if x not in imports:
+                imports.append(x)
+        for x in ro:
+            if x not in roots:
+                roots.append(x)
     return ("(* generated from extract/roots/*.txt; only ExtrOcamlBasic directives are used *)\n"
             "From Coq Require Extraction ExtrOcamlBasic.\n"
-            "From GE Require Import %s.\nExtraction Language OCaml.\nSeparate Extraction\n  %s.\n" % (
+            "From GE Require Import %s.\nExtraction Language OCaml.\n"
+            "(* naming only: keep extracted module names from shadowing OCaml's stdlib modules *)\n"
+            "Extraction Blacklist String List Char Printf Hashtbl Buffer Stdlib.\nSeparate Extraction\n  %s.\n" % (
                 " ".join(imports), "\n  ".join(roots)))
 
 
 def modelrun_build():
+    """Extracts the models area by area (extract/roots/<area>.txt + extract/handlers/<area>.ml). An area whose
+    Coq models do not compile is left out (its commands then answer 'ERR unknown command'), so that one broken
+    model cannot take the other properties' checks down."""
     with Lock("extract"):
         os.makedirs(EXTRACT_OUT, exist_ok=True)
         hd = os.path.join(EXTRACT_SRC, "handlers")
+        rd = os.path.join(EXTRACT_SRC, "roots")
         srcs = [f for f in coq_files() if "/Model/" in f] + \
                [os.path.join(EXTRACT_SRC, "driver_base.ml"), os.path.join(EXTRACT_SRC, "driver_main.ml")] + \
                [os.path.join(hd, f) for f in os.listdir(hd) if f.endswith(".ml")] + \
-               [os.path.join(EXTRACT_SRC, "roots", f) for f in os.listdir(os.path.join(EXTRACT_SRC, "roots"))]
+               [os.path.join(rd, f) for f in os.listdir(rd)]
         hv = _hash_files(srcs)
         stamp = os.path.join(EXTRACT_OUT, "stamp")
         exe = os.path.join(EXTRACT_OUT, "modelrun")
         if os.path.exists(stamp) and os.path.exists(exe) and open(stamp).read() == hv:
             return exe
-        ok, blog = coq_build()
-        if not ok:
-            # models must compile even if a proof is broken: compile Model/ files only
-            p = sh("timeout 3000 make -j16 $(ls Model/*.v | sed 's/\\.v$/.vo/')", cwd=COQ, check=False)
-            if p.returncode != 0:
-                raise Infra("Coq models do not compile:\n" + (p.stdout + p.stderr).decode("utf8", "replace")[-3000:])
+        areas = []
+        for f in sorted(os.listdir(rd)):
+            if not f.endswith(".txt"):
+                continue
+            a = f[:-4]
+            im, _ = _area_roots(os.path.join(rd, f))
+            ok, blog = coq_build(sorted(set(x.replace(".", "/") + ".vo" for x in im)))
+            if ok:
+                areas.append(a)
+            else:
+                log("WARNING: models of area %s do not compile; area left out of modelrun\n%s" % (a, blog[-1500:]))
+        if "00base" not in areas:
+            raise Infra("base models do not compile")
         for f in os.listdir(EXTRACT_OUT):
             if f.endswith((".ml", ".mli", ".cmi", ".cmx", ".o", ".vo", ".vok", ".vos", ".glob", ".v")):
                 os.remove(os.path.join(EXTRACT_OUT, f))
-        open(os.path.join(EXTRACT_OUT, "Extract.v"), "w").write(gen_extract_v())
+        open(os.path.join(EXTRACT_OUT, "Extract.v"), "w").write(gen_extract_v(areas))
         sh(["timeout", "900", "coqc", "-Q", COQ, "GE", "Extract.v"], cwd=EXTRACT_OUT)
         sh("cp %s/driver_base.ml %s/driver_main.ml ." % (EXTRACT_SRC, EXTRACT_SRC), cwd=EXTRACT_OUT)
         hs = []
-        for f in sorted(os.listdir(hd)):
-            if f.endswith(".ml"):
-                sh(["cp", os.path.join(hd, f), os.path.join(EXTRACT_OUT, "h_" + f)])
-                hs.append("h_" + f)
+        for a in areas:
+            hf = os.path.join(hd, a + ".ml")
+            if os.path.exists(hf):
+                sh(["cp", hf, os.path.join(EXTRACT_OUT, "h_" + a + ".ml")])
+                hs.append("h_" + a + ".ml")
         sh("ocamlfind ocamlopt -w -a -o modelrun $(ocamlfind ocamldep -sort $(ls *.mli *.ml | grep -v '^h_\\|^driver_')) "
            "driver_base.ml %s driver_main.ml" % " ".join(hs), cwd=EXTRACT_OUT)
         open(stamp, "w").write(hv)
@@ -360,7 +385,7 @@ def proof_phase(res, pid, expected_theorems):
     """Build Coq, run the gate, re-check the property file. Adds violations (no-failing-input-found)
     if a proof obligation no longer checks; callers then search for a failing input."""
     bad = coq_gate()
-    ok, blog = coq_build()
+    ok, blog = coq_build(["Properties/%s.vo" % pid])
     info = coq_property(pid) if ok else {"ok": False, "theorems": [], "closed": 0, "axioms": [], "bad_axioms": [],
                                          "assumption_reports": 0, "log": blog[-3000:]}
     res.cov["checker_cmd"] = "cd /verif/coq && make -j16 && coqc -Q . GE Properties/%s.v (Print Assumptions per theorem); grep gate for Admitted/admit/Axiom/Parameter/unsafe flags" % pid
@@ -379,3 +404,98 @@ def proof_phase(res, pid, expected_theorems):
             pid, bad, missing, info["bad_axioms"], ok and info["ok"], info["log"][-1500:])
         return False, what
     return True, ""
+
+
+# ----------------------------------------------------------------------------- bulk (streamed) model/impl comparison
+
+def bulk_compare(harness_args, tag, shards=12, release=False, max_report=20):
+    """Runs the harness writing 'cmd\\targs\\t=>\\timpl' lines to a file, evaluates the model on the
+    command parts with `shards` parallel modelrun processes and compares line by line.
+    Returns dict(n=..., mismatches=[(cmd, impl, model)], kinds={cmd: count}, samples=[...])."""
+    exe = harness_build(release)
+    mexe = modelrun_build()
+    wd = os.path.join(CACHE, "bulk", tag)
+    sh("rm -rf %s && mkdir -p %s" % (wd, wd))
+    cases = os.path.join(wd, "cases.tsv")
+    with open(cases, "wb") as f:
+        p = subprocess.run([exe] + [str(a) for a in harness_args], stdout=f, stderr=subprocess.PIPE, timeout=3000)
+    if p.returncode != 0:
+        raise Infra("harness %s failed: %s" % (harness_args, p.stderr.decode("utf8", "replace")[-2000:]))
+    # split into shards, then into cmd / impl columns
+    sh("split -n l/%d -d -a 3 cases.tsv shard_" % shards, cwd=wd)
+    script = r"""
+set -e
+for f in shard_???; do
+  ( awk -F'\t=>\t' '{print $1}' "$f" > "$f.cmd"; awk -F'\t=>\t' '{print $NF}' "$f" > "$f.impl";
+    (ulimit -s unlimited 2>/dev/null; %s < "$f.cmd" > "$f.model") ) &
+done
+wait
+""" % mexe
+    sh(["bash", "-c", script], cwd=wd, timeout=3000)
+    n = 0
+    mism = []
+    kinds = {}
+    samples = []
+    for sf in sorted(x for x in os.listdir(wd) if re.match(r"^shard_\d+$", x)):
+        with open(os.path.join(wd, sf + ".cmd"), encoding="utf8") as fc, \
+                open(os.path.join(wd, sf + ".impl"), encoding="utf8") as fi, \
+                open(os.path.join(wd, sf + ".model"), encoding="utf8") as fm:
+            first = True
+            for c, i, m in zip(fc, fi, fm):
+                n += 1
+                k = c[:c.find("\t")] if "\t" in c else c.strip()
+                kinds[k] = kinds.get(k, 0) + 1
+                if first and len(samples) < 8:
+                    samples.append((c.rstrip("\n"), i.rstrip("\n")))
+                    first = False
+                if i != m and len(mism) < max_report:
+                    mism.append((c.rstrip("\n"), i.rstrip("\n"), m.rstrip("\n")))
+                elif i != m:
+                    mism.append(None)
+    n_mis = len(mism)
+    mism = [x for x in mism if x is not None]
+    sh("rm -rf %s" % wd)
+    return {"n": n, "n_mismatch": n_mis, "mismatches": mism, "kinds": kinds, "samples": samples}
+
+
+def node_jobs(jobs, timeout=3000, shards=8):
+    """Runs jsrt/run.js on a list of JSON-serialisable jobs (in parallel shards); returns results in order."""
+    import json as _json
+    if not jobs:
+        return []
+    shards = max(1, min(shards, len(jobs)))
+    chunks = [jobs[i::shards] for i in range(shards)]
+    procs = []
+    for ch in chunks:
+        data = ("\n".join(_json.dumps(j) for j in ch) + "\n").encode("utf8")
+        pr = subprocess.Popen(["node", "--stack-size=4000", os.path.join(VERIF, "jsrt", "run.js")],
+                              stdin=subprocess.PIPE, stdout=subprocess.PIPE, stderr=subprocess.PIPE)
+        procs.append((pr, data))
+    outs = []
+    import threading
+    results = [None] * len(procs)
+
+    def work(i):
+        pr, data = procs[i]
+        try:
+            o, e = pr.communicate(data, timeout=timeout)
+            results[i] = (pr.returncode, o, e)
+        except subprocess.TimeoutExpired:
+            pr.kill()
+            results[i] = (-9, b"", b"timeout")
+    ths = [threading.Thread(target=work, args=(i,)) for i in range(len(procs))]
+    for t in ths:
+        t.start()
+    for t in ths:
+        t.join()
+    per = []
+    for (rc, o, e), ch in zip(results, chunks):
+        lines = [l for l in o.decode("utf8").split("\n") if l]
+        if rc != 0 or len(lines) != len(ch):
+            raise Infra("node runner failed rc=%s lines=%d/%d: %s" % (rc, len(lines), len(ch), e.decode("utf8", "replace")[-2000:]))
+        per.append([_json.loads(l) for l in lines])
+    res = [None] * len(jobs)
+    for s, lst in enumerate(per):
+        for k, r in enumerate(lst):
+            res[s + k * shards] = r
+    return res
